@@ -155,7 +155,7 @@ class AsyncWorld:
                'update_ctx': False}
         ops = []
         for i in range(1, rng.randint(2, 10)):
-            if not faulty and rng.random() < 0.3:
+            if rng.random() < 0.3:
                 ops.append({'op': 'do', 'do': 'src'})
                 continue
             kind = rng.choice(cfg['kinds'])
@@ -510,6 +510,8 @@ class _Run:
         except Exception as e:     # param raised into the driver: record, keep going
             self.log(f"EXC {what} {type(e).__name__}")
             self.out.stats['driver_exception'] += 1
+            return True
+        return False
 
     def pending_for(self, t, pn):
         """Is an awaitable of the latest assignments of (t,pn) still in flight?"""
@@ -751,9 +753,15 @@ class _Run:
                 else:
                     val = self.make_body(spec)
                 self.log(f"ASSIGN a{spec['id']} T{t}.{pn} {kind}")
-                self.guard(lambda: setattr(self.targets[t], pn, val), 'assign')
+                raised = self.guard(lambda: setattr(self.targets[t], pn, val), 'assign')
                 prev = model.get((t, pn), (None, None))[1]
-                model[(t, pn)] = (spec, prev)
+                if raised and spec.get('out') in ('raise', 'skip') and kind not in ('plain', 'pref', 'bsync'):
+                    # the awaitable failed (or raised Skip) inside the assignment, which therefore raised: whatever the parameter
+                    # followed before, it still follows (a later change of the source shows)
+                    self.out.stats['fault.awaitable_failed_inside_the_assignment'] += 1
+                    self.assigns[(t, pn)].remove(spec)      # (the assignment was rejected: it is not "the most recent assignment")
+                else:
+                    model[(t, pn)] = (spec, prev)
             x = self.src.x
             for (t, pn), (spec, prev) in sorted(model.items()):
                 kind, aid, out = spec['kind'], spec['id'], spec.get('out', 'value')
